@@ -5,6 +5,7 @@ pub mod mux;
 pub mod wirepath;
 pub mod life;
 pub mod hb;
+pub mod open;
 
 pub fn run(args: &Args, log: &Log) -> Result<(), String> {
     match args.driver.as_str() {
@@ -14,6 +15,7 @@ pub fn run(args: &Args, log: &Log) -> Result<(), String> {
         "wirepath" => wirepath::run(args, log),
         "life" => life::run(args, log),
         "hb" => hb::run(args, log),
+        "open" => open::run(args, log),
         d => Err(format!("unknown driver {d}")),
     }
 }
